@@ -64,6 +64,7 @@ func (ls *listenServer) OnCReact(r *core.Msg, c core.CConn) (out []byte, action 
 
 	core.GlobalStats.ReqCmdIncr(r.Type)
 
+	routes = routes[:0]
 	for slot, frag := range r.Body {
 		if r.Type == codec.ReqAuth {
 			if len(ls.Password) < 1 {
@@ -99,18 +100,32 @@ func (ls *listenServer) OnCReact(r *core.Msg, c core.CConn) (out []byte, action 
 				return codec.ErrUnKnown.Bytes(), core.None
 			}
 		}
-		frag.Owner = c
-
 		logging.Debugfunc(func() string {
 			return fmt.Sprintf("[%dm|%df][%dc|%ds] key '%s' maps to server '%s' in slot %d", r.Id, frag.Id, c.Fd(), sConn.Fd(), frag.Key, addr, slot)
 		})
 
-		sConn.EnqueueOutFrag(frag)
+		routes = append(routes, fragRoute{frag, sConn})
+	}
+
+	// Nothing is handed to redis before every fragment has a route: a request that
+	// is answered with a routing error must not leave fragments behind whose late
+	// replies would be applied to whatever request reuses its Msg.
+	for _, rt := range routes {
+		rt.frag.Owner = c
+		rt.sConn.EnqueueOutFrag(rt.frag)
 	}
 
 	c.EnqueueInMsg(r)
 	return
 }
+
+type fragRoute struct {
+	frag  *core.Frag
+	sConn core.SConn
+}
+
+// routes to avoid frequent memory alloc, set routes as a global variable like liveSlaves
+var routes []fragRoute
 
 // getConn Get an available connection from the redis connection pool
 func (ls *listenServer) getConn(r *core.Msg, slot int32) (core.SConn, error, bool, string) {
